@@ -1960,20 +1960,13 @@ def run(rep: Report, ctx: Any) -> str:
     resolved = [e for e in printed if pc_labels and pc_labels <= e.labels]
     n_ts = len(resolved)
     # counted by role: the templates that print a declaration through to_string() (class attributes, function signatures) - each of
-    # them has a hole that was followed into to_string and carries what python_code may hold, and there are the two kinds of host.
-    # Where the flow interpretation does not know what the template hands to to_string() (a parameter of a call block, ...) the hole
-    # has no labels at all; it still prints a property's declaration when nothing but the property classes defines a to_string
-    pp_qual = ix.cls("PropertyProtocol").qual
-    only_properties = all(any(m.qual == pp_qual for m in ix.mro(k)) for k in ix.classes.values() if "to_string" in k.methods)
-    unfollowed = [e for e in printed if not e.labels] if only_properties else []
-    hosts = {e.template for e in printed}
-    hosts_located = {e.template for e in resolved} | {e.template for e in unfollowed}
-    rep.indexed["to_string_receiver_unknown"] = len(unfollowed)
+    # them has a hole that was followed into to_string and carries what python_code may hold, and there are the two kinds of host
+    hosts, hosts_resolved = {e.template for e in printed}, {e.template for e in resolved}
     if ok:
         rep.floor("to_string_default_emissions", n_ts, 2)
-        rep.require(hosts <= hosts_located, "the default printed by to_string() could not be followed into the declaration(s) of "
-                    f"{sorted(hosts - hosts_located)}")
-        rep.floor("to_string_default_hosts", len(hosts_located), 2)
+        rep.require(hosts <= hosts_resolved, "the default printed by to_string() could not be followed into the declaration(s) of "
+                    f"{sorted(hosts - hosts_resolved)} (what the template hands to to_string() is not known)")
+        rep.floor("to_string_default_hosts", len(hosts_resolved), 2)
     else:
         rep.indexed["to_string_default_emissions"] = n_ts
     rep.not_decided.append("value equality of the evaluated default with the document's value; leniency inside accepting branches")
